@@ -172,6 +172,13 @@ func c20CheckMask(times []int64, retractMask int, maxDiff time.Duration, resolut
 			return "watermark/not-emitted-when-quantity-grew", fmt.Sprintf("%s: after %s floor(max seen)-max_diff = %s is above the last emitted watermark %s but no watermark was emitted", desc, at, c20WMStr(q), c20WMStr(cur)), cs, nWM, nDropped
 		}
 	}
+	if preFP == "" {
+		// the same generator instance is run once per outer record below a LOOKUP JOIN / subquery expression:
+		// a second run over the same input must produce the same stream
+		if d := stream.RerunDiff(func(src execution.Node) execution.Node { return mustNode(mkMaxDiff(src, maxDiff, resolution)) }, evs); d != "" {
+			return "second-run-of-same-node-differs", fmt.Sprintf("%s: %s", desc, d), cs, nWM, nDropped
+		}
+	}
 	return preFP, preWhat, cs, nWM, nDropped
 }
 
@@ -221,7 +228,7 @@ func init() {
 		}
 		r.Bound = map[string]interface{}{"max_len": maxLen, "times_after_unix_epoch": alpha, "max_diff": []string{"0s", "1s", "2s"},
 			"resolution": []string{"default(absent)", "1s", "2s"}, "sequences": len(seqs), "configs": len(maxDiffs) * len(resolutions)}
-		r.Rule = "every sequence (any order, duplicates) of record times up to the length bound over the alphabet x max_diff x resolution, rows [k=index, ts] with zero event time (and, for short sequences, every choice of which rows are retractions), run on the real max_diff_watermark node; oracle = invariants on the output log aligned by input position: (1) each emitted watermark == floor(max time seen so far, resolution) - max_diff with floor toward minus infinity, (2) strictly increasing, (3) emitted whenever that quantity exceeds the last emitted watermark, (4) record passes iff its time > the last emitted watermark (zero time initially), once, unchanged, event time == time field, not after a watermark of its own input that is >= its time; non-trivial = sequence with at least one dropped record and at least one emitted watermark"
+		r.Rule = "every sequence (any order, duplicates) of record times up to the length bound over the alphabet x max_diff x resolution, rows [k=index, ts] with zero event time (and, for short sequences, every choice of which rows are retractions), run on the real max_diff_watermark node; oracle = invariants on the output log aligned by input position: (1) each emitted watermark == floor(max time seen so far, resolution) - max_diff with floor toward minus infinity, (2) strictly increasing, (3) emitted whenever that quantity exceeds the last emitted watermark, (4) record passes iff its time > the last emitted watermark (zero time initially), once, unchanged, event time == time field, not after a watermark of its own input that is >= its time, (5) a second run of the same node instance over the same input emits the same stream; non-trivial = sequence with at least one dropped record and at least one emitted watermark"
 		r.Assume("absent resolution means 1s (documented default)", "max_diff < 0 and resolution <= 0 are out of contract and not generated",
 			"the statement is silent about the relative order of a record and the watermark emitted on the same input; only 'record after a watermark >= its time' is judged",
 			"'current watermark' for the pass/drop decision is the last watermark the node actually emitted (so a wrong watermark value is reported once, as a watermark defect)")
